@@ -112,10 +112,13 @@ JudgeTopo(e) ==
       a == e.act.args
   IN IF Crashed(e) THEN V("crash", subj, "C20", e.post.msg)
   ELSE CASE e.act.m = "find_neighbors" ->
-         LET r == a[4] IN
-         IF FLt(r, FPosZero) \/ a[2] < 1 \/ a[1] < 1 \/ a[3] > a[1] \/ (a[2] >= 65 /\ a[1] >= 2)
+         LET r == a[4]
+             \* a negative dimension count encodes a huge one (near usize::MAX, or a multiple of 2^32; decoded by the harness)
+             nd == IF a[2] < 0 THEN MaxInt ELSE a[2]
+         IN
+         IF FLt(r, FPosZero) \/ nd < 1 \/ a[1] < 1 \/ a[3] > a[1] \/ (nd >= 65 /\ a[1] >= 2)
          THEN Expect(RetEq(e.ret, RNone), subj, "C20", "invalid arguments must yield no neighbourhood")
-         ELSE LET nb == Neighbors(a[1], a[2], a[3], r) IN
+         ELSE LET nb == Neighbors(a[1], nd, a[3], r) IN
               Expect(e.ret.t = "some" /\ ClassOK([c |-> "between", a |-> nb.lo, b |-> nb.hi], e.ret.v, <<>>),
                      subj, "C20", "neighbourhood differs from the Euclidean ball on the smallest enclosing hypercube")
        [] e.act.m = "decompose_index" ->
